@@ -65,7 +65,9 @@ def build(aspect, sc, salt):
         for r in sc['index']:
             imp(r)
         index = [[bool(sc['implied'] and i == len(sc['index']) - 1), nm(r)] for i, r in enumerate(sc['index'])]
-        table = ot(NAME[('L', 'table')], {'seqof': 'MyEntry'}, {'parent': 'refsRoot', 'arcs': [[None, 1]]}, access='not-accessible')
+        # arcs of the two tables: numeric order and the order of the dotted strings differ for some representatives
+        tarc, aarc = [(1, 2), (2, 10), (10, 4), (3, 20)][salt % 4]
+        table = ot(NAME[('L', 'table')], {'seqof': 'MyEntry'}, {'parent': 'refsRoot', 'arcs': [[None, tarc]]}, access='not-accessible')
         row = ot(NAME[('L', 'row')], {'base': 'MyEntry'}, {'parent': NAME[('L', 'table')], 'arcs': [[None, 1]]}, access='not-accessible', index=index)
         seq = {'k': 'sequence', 'name': 'MyEntry', 'members': [[NAME[('L', c)], 'Integer32'] for c in cols]}
         coldecls = [ot(NAME[('L', c)], {'base': 'Integer32'}, {'parent': NAME[('L', 'row')], 'arcs': [[None, i + 1]]}) for i, c in enumerate(cols)]
@@ -79,7 +81,7 @@ def build(aspect, sc, salt):
                 imp({'m': 'B', 'o': 'bRow'})
             else:
                 target = NAME[('L', 'row')]
-            t2 = ot(NAME[('L', 'table2')], {'seqof': 'AugEntry'}, {'parent': 'refsRoot', 'arcs': [[None, 2]]}, access='not-accessible')
+            t2 = ot(NAME[('L', 'table2')], {'seqof': 'AugEntry'}, {'parent': 'refsRoot', 'arcs': [[None, aarc]]}, access='not-accessible')
             r2 = ot(NAME[('L', 'row2')], {'base': 'AugEntry'}, {'parent': NAME[('L', 'table2')], 'arcs': [[None, 1]]}, access='not-accessible', augments=target)
             sq2 = {'k': 'sequence', 'name': 'AugEntry', 'members': [['augCol', 'Integer32']]}
             c2 = ot('augCol', {'base': 'Integer32'}, {'parent': NAME[('L', 'row2')], 'arcs': [[None, 1]]})
